@@ -387,7 +387,10 @@ def _run(scn, w, res):
                 continue
             addr = master.dhcp_dict[nid]
             fid += 1
-            frame = netref.pack_header(addr, 0, fid, 197, 0)
+            # (with static payload lengths every frame arrives zero-padded: a release may carry bytes after its header)
+            frame = netref.pack_header(addr, 0, fid, 197, 0) + bytes((0, 0, 2, 24)[(scn["seed"] + fid) % 4])
+            if len(frame) > 8:
+                sim.count("release_with_padding")
             rl.rx_fifo.clear()
             inj.send(rm.pipe_addr(netref.child_pipe(addr & 7)), frame, want_ack=False)
             try:
